@@ -24,4 +24,4 @@ FINDINGS = []
 
 
 def run(ctx):
-    B.run_property(ctx, "C07", INVARIANTS, PROPERTIES, QUICK, THOROUGH, FINDINGS, check_selection={"ffroot", "ff_s"}, overlap=['nest_s', 'alw'])
+    B.run_property(ctx, "C07", INVARIANTS, PROPERTIES, QUICK, THOROUGH, FINDINGS, check_selection={"ffroot", "ff_s"}, overlap=['nest_s', 'alw', 'grp2'])
